@@ -138,7 +138,7 @@ Lemma overflow_elem_float f o q : 1 <= nw f <= 52 -> - 2^63 < q < 2^63 ->
 Proof.
   intros Hw Hq. unfold overflow_elem. rewrite elem_gt_rounded, elem_lt_rounded by exact Hw.
   pose proof (cmax_bound f Hw). cbn [elem_to_code].
-  replace (64 <=? nw f) with false by lia. cbn [andb].
+  replace (64 <=? nw f) with false by lia. cbn [andb orb].
   rewrite astype_int by exact Hq. cbn [of_option bind].
   destruct o; cbn [overflow].
   - unfold sat. destruct (cmax f <? q) eqn:E1; [f_equal; lia|].
@@ -149,7 +149,7 @@ Lemma overflow_elem_int f o q : 1 <= nw f <= 52 ->
   overflow_elem f o false (NI q) = Ok (overflow o f q).
 Proof.
   intros Hw. unfold overflow_elem, elem_gt, elem_lt. pose proof (cmax_bound f Hw).
-  replace (64 <=? nw f) with false by lia. cbn [andb elem_to_code bind].
+  replace (64 <=? nw f) with false by lia. cbn [andb orb elem_to_code bind].
   destruct o; cbn [overflow].
   - unfold sat. destruct (cmax f <? q) eqn:E1; [f_equal; lia|].
     destruct (q <? cmin f) eqn:E2; f_equal; lia.
@@ -267,10 +267,11 @@ Theorem set_val_floats_core f r o vs : core_fmt f -> Forall (core_dy f) vs ->
   set_val_real f r o false (AF64 (map f64_of_core vs)) VFloat = Ok (spec_wres f r o vs).
 Proof.
   intros Hf Hvs. unfold set_val_real.
-  assert (Hobj: obj_path f (AF64 (map f64_of_core vs)) = false).
+  assert (Hobj: obj_path f false (AF64 (map f64_of_core vs)) = false).
   { unfold obj_path. cbn [arr_nums]. rewrite map_map. rewrite existsb_map.
-    rewrite existsb_false; [destruct Hf; lia|].
-    eapply Forall_impl; [|exact Hvs]. intros v Hv. apply (not_big_float f v Hf Hv). }
+    rewrite existsb_false.
+    - destruct (conv_factor_int f false); destruct Hf; cbn [orb]; lia.
+    - eapply Forall_impl; [|exact Hvs]. intros v Hv. apply (not_big_float f v Hf Hv). }
   rewrite Hobj. cbn [astype_vd bind]. rewrite map_map.
   rewrite (mapM_Forall2 _ (spec_eres f r o) _ vs).
   - cbn [bind]. unfold spec_wres. rewrite !map_map, !existsb_map. reflexivity.
@@ -282,10 +283,15 @@ Theorem set_val_ints_core f r o zs : core_fmt f -> Forall (core_int f) zs ->
   set_val_real f r o false (AI64 zs) VInt = Ok (spec_wres f r o (map dy_of_Z zs)).
 Proof.
   intros Hf Hzs. unfold set_val_real.
-  assert (Hobj: obj_path f (AI64 zs) = false).
+  assert (Hobj: obj_path f false (AI64 zs) = false).
   { unfold obj_path. cbn [arr_nums]. rewrite existsb_map.
-    rewrite existsb_false; [destruct Hf; lia|].
-    eapply Forall_impl; [|exact Hzs]. intros z Hz. apply (not_big_int f z Hz). }
+    rewrite existsb_false; [|eapply Forall_impl; [|exact Hzs]; intros z Hz; apply (not_big_int f z Hz)].
+    replace (64 <=? nw f) with false by (destruct Hf; lia). cbn [orb].
+    unfold conv_factor_int. destruct (0 <=? nf f) eqn:E; [|reflexivity].
+    assert (Hk: 2^(nf f) < 2^63) by (apply pow2_lt; destruct Hf; lia).
+    replace (2^63 <=? 2^(nf f)) with false by lia. cbn [orb].
+    apply existsb_false. eapply Forall_impl; [|exact Hzs]. intros z (Hz1 & Hz2).
+    assert (2^62 < 2^63) by (apply pow2_lt; lia). specialize (Hz2 ltac:(lia)). lia. }
   rewrite Hobj. cbn [astype_vd bind].
   rewrite (mapM_Forall2 _ (spec_eres f r o) _ (map dy_of_Z zs)).
   - cbn [bind]. unfold spec_wres. rewrite !map_map, !existsb_map. reflexivity.
